@@ -20,4 +20,15 @@ PROPS = {
         assumptions=["the PhaseUnwrapper is only driven through NewPhaseUnwrapper/UnwrapInPlace",
                      "theorems assume |bias| <= half a quantum (true for every caller after the ROACH fix)"],
     ),
+    "C14": dict(
+        rule="generated records (channel 0..65535 incl. boundaries, lengths 0..600 (thorough: up to 70000), signed/unsigned, extreme "
+             "frames/times (0, +-2^63, -1, random), arbitrary float32/float64 bit patterns incl. NaN/Inf, 0..40 coefficients); the real "
+             "messageRecords/messageSummaries bytes are decoded by the doc-derived Lean decoder and compared with the record, and "
+             "compared byte-for-byte with the model encoder. Non-trivial = every case (each decodes a full message); distinct by input line.",
+        nontrivial=[],
+        jobs=seeds(1, 4),
+        trusted_base=["float32()/float64 conversions and bit patterns are taken from Go's math package (opaque bit strings in the model)",
+                      "ZeroMQ framing (two-part message) is not modelled"],
+        assumptions=["records reach messageRecords/messageSummaries unchanged from the publisher (pipeline covered by C01)"],
+    ),
 }
